@@ -40,6 +40,10 @@ def parseReq (s : String) : Option SReq :=
 /-- Same construction as `request_bytes` in the harness. -/
 def reqBytes (r : SReq) : Bytes :=
   if r.framing == "x" then str s!"{r.method} {r.path}\r\n\r\n" else
+  if r.framing == "h" then str s!"{r.method} {r.path} HTTP/1.0\r\n\r\n" else
+  if r.framing == "l" then str s!"{r.method} {r.path} HTTP/1.1\r\nx-pad: {String.ofList (List.replicate 9000 'x')}\r\n\r\n" else
+  if r.framing == "q" then str s!"{r.method} {r.path} HTTP/1.1\r\ncookie: novalue\r\n\r\n" else
+  if r.framing == "z" then str s!"{r.method} {r.path} HTTP/1.1\r\ncontent-length: abc\r\n\r\n" else
   let head := s!"{r.method} {r.path} HTTP/1.1\r\n" ++
     (if r.framing == "k" then s!"content-length: {r.body.length}\r\n"
      else if r.framing == "e" then s!"content-length: {r.body.length}\r\nexpect: 100-continue\r\n"
@@ -145,6 +149,9 @@ def exchangeCheck (reqs : List SReq) (calls : List String) (wire : Bytes) (cut :
        if r.beh == .drop && is.contains i then finals.length ≤ i else true)
      let panicOk := (reqs.zipIdx.all fun (r, i) =>
        if r.beh == .panic && is.contains i then (match finals[i]? with | some p => p.code == 500 | none => false) else true)
+     -- every 5xx response that is sent is marked `connection: close` (C20)
+     let closeOk := finals.all fun p => p.code / 100 != 5 || p.fields.contains (b!"connection", b!"close")
+     (if closeOk then [] else ["5xx-without-connection-close"]) ++
      (if matchOk then [] else ["response-for-wrong-request"]) ++
      (if closedOk then [] else ["bytes-after-error-response"]) ++
      (if countOk then [] else ["more-responses-than-requests"]) ++
